@@ -384,6 +384,7 @@ fn residue3() -> (usize, usize, usize) {
 }
 
 fn apply_memo_knobs(call: &Call) {
+    verif::set_version_frozen(call.freeze_version);
     CUR_KNOBS.with(|k| {
         let mut k = k.borrow_mut();
         if k.1 != call.flag_aware {
